@@ -303,8 +303,10 @@ class Function(Value):
         )
 
     def to_model(self) -> model.Term:
-        module = self.body.to_model()
-        return model.Func(module.root)
+        # the body is rooted at a dataflow parent (DFG or FuncDefn), not at a module
+        from hugr.model.export import ModelExport
+
+        return model.Func(ModelExport(self.body).export_region_dfg(self.body.root))
 
 
 @dataclass
